@@ -180,6 +180,7 @@ def _account(stats: ShardStats, sub: SubCheck, spec, out: Outcome, known_keys):
             if len([s for s in stats.samples if s.get('check') == sub.name]) < 2:
                 stats.samples.append(dict(check=sub.name, case=sub.render(spec)))
     new = []
+    hits = set()
     for f in out.failures:
         hit = None
         for k in known_keys:
@@ -187,9 +188,11 @@ def _account(stats: ShardStats, sub: SubCheck, spec, out: Outcome, known_keys):
                 hit = k
                 break
         if hit is not None:
-            stats.known_hits[hit] = stats.known_hits.get(hit, 0) + 1
+            hits.add(hit)
         else:
             new.append(f)
+    for hit in hits:  # counted once per case
+        stats.known_hits[hit] = stats.known_hits.get(hit, 0) + 1
     return new
 
 
